@@ -1039,3 +1039,30 @@ func hasMergeString(v any) bool {
 	}
 	return false
 }
+
+// hasExcludedString: does the (parsed JSON) tree hold a multi-line string that
+// begins with whitespace? Such strings are outside C09's / C02's statement on
+// the YAML leg (yaml.v3's emitter cannot round-trip them); they can also arise
+// from interpolation, so the generated input alone does not decide it.
+func hasExcludedString(v any) bool {
+	bad := func(s string) bool {
+		return s != "" && strings.ContainsAny(s, "\n\r") && strings.ContainsAny(s[:1], " \t\n\r")
+	}
+	switch x := v.(type) {
+	case omap:
+		for _, e := range x {
+			if bad(e.K) || hasExcludedString(e.V) {
+				return true
+			}
+		}
+	case []any:
+		for _, e := range x {
+			if hasExcludedString(e) {
+				return true
+			}
+		}
+	case string:
+		return bad(x)
+	}
+	return false
+}
